@@ -56,7 +56,7 @@ def taus (w : W) : List WA := Id.run do
   for i in [0:w.st.ths.length] do
     match w.st.ths[i]? with
     | some (.pub _ rest pc _) =>
-      if pc == .start || pc == .unlock || (pc == .send && rest.isEmpty) || isWait (some pc) then out := .m (.step i) :: out
+      if pc == .start || pc == .persist || pc == .unlock || (pc == .send && rest.isEmpty) || isWait (some pc) then out := .m (.step i) :: out
     | some (.sub _ _ pc) => if pc == .start then out := .m (.step i) :: out
     | some (.td _ _ pc) => if pc == .remove then out := .m (.step i) :: out
     | some (.closer _) => out := .m (.step i) :: out
@@ -82,7 +82,8 @@ def byLabel (w : W) : Lbl → List (List WA)
     | some i => upTo i 2 (fun w => pubPc w i == some .persist)
     | none => []
   | .pp n => match w.names.lookup n with
-    | some i => [[.m (.step i), .chk (fun w => pubPc w i == some .send)]]
+    -- `publish.persisted` is logged after `persistedMessagesLock` was released: the persist step itself is internal
+    | some i => [[.chk (fun w => pubPc w i == some .send || isWait (pubPc w i) || pubPc w i == some .unlock || pubPc w i == some .retOk)]]
     | none => []
   | .ps n u => match w.names.lookup n with
     | some i =>
